@@ -55,7 +55,7 @@ ATOMS = {a.name: a for a in [
     # long sequences take the index-picking branch of XSequence::sample (len > 6 + 4^(bits(3k)/2)), short ones the pool branch
     Atom("seq_sample_pick3", "range(30).sample(3)", "Sequence<int>", "random", 2, (S, "sample"), 0, 0, [None, None]),
     Atom("seq_sample_pick1", "range(12).sample(1)", "Sequence<int>", "random", 2, (S, "sample"), 0, 0, [None, None]),
-    Atom("seq_sample_pick10", "range(200).map((i: int) -> {i * 2}).sample(10)", "Sequence<int>", "random", 2, (S, "sample"), 0, 0, [None, None]),
+    Atom("seq_sample_pick10", "range(200).map((i: int) -> {{i * 2}}).sample(10)", "Sequence<int>", "random", 2, (S, "sample"), 0, 0, [None, None]),
     Atom("shuffle_long", "range(40).shuffle()", "Sequence<int>", "random", 2, (S, "sample"), 1, 0, [None, None]),
     Atom("shuffle", "[1, 2, 3].shuffle()", "Sequence<int>", "random", 2, (S, "sample"), 1, 0, [None, None]),
     Atom("sample_counts", "sample([1, 2, 3], 2, [1, 1, 1])", "Sequence<int>", "random", 2, (S, "sample"), 3, 0, [None, None]),
